@@ -407,8 +407,10 @@ def li_setup(ctx):
     }
     consts = {"ActionLink": ClassRef("ActionLink"), "_ActionConfigLoad": ClassRef("_ActionConfigLoad"), "_ActionSubCommands": ClassRef("_ActionSubCommands"), "ActionConfigFile": ClassRef("ActionConfigFile"), "SUPPRESS": "==SUPPRESS=="}
     fn = [None, Rec("fn", attrs={"__name__": "compute"})][ctx.choose(2, "compute_fn")]
+    snap = dict(osa=dict(parser.attrs["_option_string_actions"]), actions=list(parser.attrs["_actions"]), req=set(req), shown=list(grp.attrs["_group_actions"]), links=list(links_group.attrs["_group_actions"]),
+                sub_add_kwargs=dict(m_action.attrs["sub_add_kwargs"]))
     return Setup(env={"self": self, "parser": parser, "source": sources, "target": target, "compute_fn": fn, "apply_on": apply_on}, calls=calls, consts=consts,
-                 data=dict(apply_on=apply_on, src_kind=src_kind, tgt_kind=tgt_kind, required=required, cyc=cyc, has_links_group=has_links_group, sources=sources, target=target, parser=parser, self_=self,
+                 data=dict(snap=snap, apply_on=apply_on, src_kind=src_kind, tgt_kind=tgt_kind, required=required, cyc=cyc, has_links_group=has_links_group, sources=sources, target=target, parser=parser, self_=self,
                            t_action=t_action, m_action=m_action, m_help=m_help, other=other, grp=grp, links_group=links_group, inited=inited, fn=fn, src_found=src_found, cls_found=cls_found))
 
 
@@ -460,6 +462,11 @@ def li_raises(ctx, st, exc):
     d = st.data
     ctx.oblige("raises", f"ValueError-exactly-when-the-link-is-not-legal[{d['apply_on']},sources:{d['src_kind']},target:{d['tgt_kind']}{',cycle' if d['cyc'] else ''}](got {exc.cls}@{exc.origin})",
                exc.cls == "ValueError" and not li_legal(d))
+    p, sn = d["parser"].attrs, d["snap"]
+    same = (p["_option_string_actions"] == sn["osa"] and all(p["_option_string_actions"][k] is v for k, v in sn["osa"].items()) and len(p["_actions"]) == len(sn["actions"]) and all(x is y for x, y in zip(p["_actions"], sn["actions"]))
+            and p["required_args"] == sn["req"] and len(d["grp"].attrs["_group_actions"]) == len(sn["shown"]) and all(x is y for x, y in zip(d["grp"].attrs["_group_actions"], sn["shown"]))
+            and list(d["links_group"].attrs["_group_actions"]) == sn["links"] and d["m_action"].attrs["sub_add_kwargs"] == sn["sub_add_kwargs"])
+    ctx.oblige("frame", f"a-refused-link-leaves-the-parser-as-it-was(options, actions, required keys, help listing, links, linked parameters):it-stays-usable[{d['apply_on']},sources:{d['src_kind']},target:{d['tgt_kind']}{',cycle' if d['cyc'] else ''}]", same)
 
 
 UNITS.append(Unit("C15", "jsonargparse._link_arguments:ActionLink.__init__", li_setup, li_post, li_raises, max_paths=20000, expect_cover=("return", "raise:ValueError"),
